@@ -271,7 +271,23 @@ fn build(scn: &Scenario, asset: AssetKind, tag: u64) -> Machine {
             }
         }
     }
+    // an emulator that has been running for 22 minutes: the frames pass quickly because the frame
+    // clock is put just before each frame's end (hook); the same for every driving of the tuple
+    let age = AGE.with(|a| a.get());
+    if age > 0 {
+        let fl = m.frame_len();
+        for _ in 0..age {
+            m.set_clock(fl - 4);
+            m.run_frames(1);
+        }
+        m.drain_audio();
+    }
     m
+}
+
+thread_local! {
+    /// frames every machine of the current tuple has behind it when the driving starts
+    static AGE: std::cell::Cell<u64> = std::cell::Cell::new(0);
 }
 
 fn audio_hash(h: &mut u64, v: &[(f32, f32)]) {
@@ -483,6 +499,7 @@ fn partition(rng: &mut Rng, cuts: &[usize], total: usize, max_part: usize) -> Ve
 
 struct St {
     tuples: u64,
+    aged_tuples: u64,
     frames: u64,
     comparisons: u64,
     kinds: HashSet<String>,
@@ -490,6 +507,17 @@ struct St {
 }
 
 fn one_tuple(ctx: &Ctx, rng: &mut Rng, st: &mut St, case: u64) {
+    // one tuple in 24: the 65536th frame since power-on ends within the first 18 frames of the run
+    let age = if case % 24 == 5 { 65_536 - 3 - rng.below(15) } else { 0 };
+    AGE.with(|a| a.set(age));
+    if age > 0 {
+        st.aged_tuples += 1;
+    }
+    one_tuple_inner(ctx, rng, st, case);
+    AGE.with(|a| a.set(0));
+}
+
+fn one_tuple_inner(ctx: &Ctx, rng: &mut Rng, st: &mut St, case: u64) {
     let is128 = rng.bool();
     let scn = match rng.below(9) {
         8 => Scenario::TapePoll { is128, iff: rng.bool() },
@@ -691,7 +719,7 @@ pub fn run(ctx: &Ctx) -> Evidence {
     let n = ctx.scale(160, 3_000) as usize;
     let shards = 32usize;
     let res = par_map(ctx.jobs(), shards, |sh| {
-        let mut st = St { tuples: 0, frames: 0, comparisons: 0, kinds: HashSet::new(), sample: vec![] };
+        let mut st = St { tuples: 0, aged_tuples: 0, frames: 0, comparisons: 0, kinds: HashSet::new(), sample: vec![] };
         for i in 0..(n / shards).max(1) {
             let case = (sh * (n / shards).max(1) + i) as u64;
             if let Ok(c) = std::env::var("VERIF_C16_CASE") {
@@ -708,12 +736,13 @@ pub fn run(ctx: &Ctx) -> Evidence {
         }
         st
     });
-    let mut ev = Evidence::new("scenarios (ROM boot, random programs with interrupts/port I/O, the repository's sound/keyboard snapshots, tape loading in real time and fast) with key events at frame boundaries, each run under the reference driving (one frame per call) and under alternatives: repetition, FrameCount(n) partitions, Max mode with scripted stopwatch readings (zero, increasing, non-monotonic, jumps), breakpoints every k-th instruction / at random instruction counts with resume, sound off, AY mixing off, audio drained every 3rd frame / never, file / gzip / short-read assets; digests compared at every event frame and at the end; plus snapshots cut short at random places delivered by a bare in-memory cursor, a boxed one, short reads and a real file (same outcome, same machine afterwards). distinct = (scenario kind, driving kind) pairs");
+    let mut ev = Evidence::new("scenarios (ROM boot, random programs with interrupts/port I/O, the repository's sound/keyboard snapshots, tape loading in real time and fast) with key events at frame boundaries, each run under the reference driving (one frame per call) and under alternatives: repetition, FrameCount(n) partitions, Max mode with scripted stopwatch readings (zero, increasing, non-monotonic, jumps), breakpoints every k-th instruction / at random instruction counts with resume, sound off, AY mixing off, audio drained every 3rd frame / never, file / gzip / short-read assets; digests compared at every event frame and at the end; plus snapshots cut short at random places delivered by a bare in-memory cursor, a boxed one, short reads and a real file (same outcome, same machine afterwards); one tuple in 24 runs on machines whose 65536th frame ends inside the compared run. distinct = (scenario kind, driving kind) pairs");
     let mut kinds = HashSet::new();
     for r in res {
         ev.evaluations += r.tuples;
         ev.add_num("frames_emulated", r.frames);
         ev.add_num("digest_comparisons", r.comparisons);
+        ev.add_num("tuples_on_machines_65536_frames_old", r.aged_tuples);
         kinds.extend(r.kinds);
         for s in r.sample {
             ev.sample(s);
